@@ -4,7 +4,7 @@ owner; member-count quorum with a faked member count.  Oracle: the quorum arithm
 from streams.cluster import T0, hx
 
 HEADER = 3
-REQUIRED_SHAPES = ["backup_without_copy", "write_quorum_met_with_unreachable", "write_quorum_unmet", "read_quorum_unmet", "read_quorum_met",
+REQUIRED_SHAPES = ["every_command_refused_below_member_quorum", "backup_without_copy", "write_quorum_met_with_unreachable", "write_quorum_unmet", "read_quorum_unmet", "read_quorum_met",
                    "member_quorum_refused"]
 
 
@@ -53,6 +53,12 @@ class Oracle:
                 self.lowq.discard(int(a[0]))
             return None
         R, W, RQ = int(self.cfg.get("r", 1)), int(self.cfg.get("w", 1)), int(self.cfg.get("rq", 1))
+        if name == "c.rawerr":
+            if int(a[0]) not in self.lowq:
+                return None
+            cmd = bytes.fromhex(a[1]).decode().lower()
+            self.hit("every_command_refused_below_member_quorum")
+            return None if reply == "cq" else "%s sent to a member below MemberCountQuorum was answered %s instead of the cluster-quorum error" % (cmd.upper(), reply[:60])
         if name in ("c.put", "c.get") and int(a[1]) in self.lowq:
             self.hit("member_quorum_refused")
             return None if reply == "cq" else "%s through a member below MemberCountQuorum answered %s" % (name, reply)
@@ -139,6 +145,16 @@ class Gen:
             yield "c.get raw %d dm %s" % (owner, key)
             yield "c.put raw %d dm %s %s" % (owner, key, hx(b"v3"))
             yield "c.get emb %d dm %s" % (owner, key)
+            # every command a member serves (the list is the member's own) - except the routing-table push, which is what
+            # lets a member below the quorum learn about new members - is refused with the cluster-quorum error
+            cmds = (yield "c.commands %d" % owner).split(",")
+            for c in cmds:
+                if c in ("internal.node.updaterouting", "subscribe", "psubscribe"):
+                    continue
+                words = c.split(" ")
+                args = {"dm.": ["dm", "k", "1"], "publish": ["ch", "m"], "internal.node.": ["1", "2"], "pubsub": ["ch"]}
+                extra = next((v for p, v in args.items() if c.startswith(p)), [])
+                yield "c.rawerr %d %s" % (owner, " ".join(hx(w.encode()) for w in words + extra))
             yield "c.nummembers %d %d" % (owner, n)
             yield "c.get raw %d dm %s" % (owner, key)
         _ = key2
